@@ -68,6 +68,11 @@ def run(tier):
                 "transform it calls, its mix_pairs and the name of the produced Hamiltonian are captured and compared over the "
                 "registry; matrices and point-wise maps are extracted as terms and inverse identities decided exactly.",
                 trusted_base=["python ast", "hv.kpe", "sympy", "C06.c: _substitute_linear(p, A)(x) = p(Ax)"])
+    # a conversion that is memoised must be keyed by the target form and by the context (point, tolerances) it was run with
+    from . import c20
+    from .common import Relabel
+    hs = [x for x in c20._sites() if x.mod.name.endswith("services.hamiltonian")]
+    c20._b_key_params(Relabel(chk, {"C20.b": "C18.a-cache"}), hs)
     _ab_registry(chk)
     _c_linear(chk)
     _d_pointwise(chk)
